@@ -368,6 +368,22 @@ type PathCheck struct {
 	MinPaths         int // at least this many paths must reach a sink (default 1): a sink that is never reached is a vacuous rule
 }
 
+// QuietPaths evaluates a PathCheck without recording an obligation: "" when every path satisfies the predicate, else the
+// first objection (or the reason the paths could not be enumerated).
+func QuietPaths(pc PathCheck) string {
+	q := &PathQuery{Fn: pc.Fn, From: pc.From, Sink: pc.Sink, Event: pc.Event, Cut: pc.Cut, Track: pc.Track, Relevant: pc.Relevant, KeepLoopFacts: pc.KeepLoopFacts, EventsBeforeFrom: pc.EventsBeforeFrom}
+	states, err := q.Run()
+	if err != nil {
+		return err.Error()
+	}
+	for _, st := range states {
+		if why := pc.Pred(st); why != "" {
+			return why
+		}
+	}
+	return ""
+}
+
 // AllPaths evaluates a PathCheck as one obligation.
 func (c *Ctx) AllPaths(construct string, pc PathCheck, okFormat string, args ...any) bool {
 	if pc.Fn == nil {
